@@ -74,7 +74,7 @@ package httpcache
 //@   property C18 C20 C08
 //@   requires wired(r) && req != nil && req.URL != nil && freshness != nil && freshness.Age != nil          # name: well-formed
 //@   requires !reqOIC(req)                                                 # name: not-only-if-cached   props: C18
-//@   requires req.Method == "GET" && hget(req.Header, "Range") == ""       # name: plain-get   props: C06
+//@   requires req.Method == "GET" && hget(req.Header, "Range") == ""       # name: plain-get   props: C06 C03
 //@   requires hasArr(ccReq) == dirsHas(ccText(req.Header))                 # name: request-directives-are-the-requests
 //@   requires refs == indexRead || len(refs) == 0                          # name: refs-is-the-index-read-in-this-exchange   props: C08
 //@   assigns *
@@ -110,7 +110,7 @@ package httpcache
 //@ func (*transport).handleCacheHit
 //@   property C01 C02 C18 C06 C11 C08
 //@   requires wired(r) && req != nil && req.URL != nil && stored != nil && stored.Data != nil && stored.Data.Header != nil
-//@   requires req.Method == "GET" && hget(req.Header, "Range") == ""                       # name: plain-get   props: C06
+//@   requires req.Method == "GET" && hget(req.Header, "Range") == ""                       # name: plain-get   props: C06 C03
 //@   requires req.Header != stored.Data.Header                                             # name: request-header-not-shared
 //@   requires refs == indexRead || len(refs) == 0                                          # name: refs-is-the-index-read-in-this-exchange   props: C08
 //@   let tq = old(ccText(req.Header))
@@ -145,7 +145,7 @@ package httpcache
 //@   property C18 C10 C06 C11 C08
 //@   requires wired(r) && req != nil
 //@   requires refs == indexRead || len(refs) == 0                                          # name: refs-is-the-index-read-in-this-exchange   props: C08
-//@   requires req.Method == "GET" && hget(req.Header, "Range") == ""                       # name: plain-get   props: C06
+//@   requires req.Method == "GET" && hget(req.Header, "Range") == ""                       # name: plain-get   props: C06 C03
 //@   assigns *
 //@   ensures (result0 != nil) != (result1 != nil)                                          # name: result-shape   props: C10
 //@   ensures old(reqOIC(req)) ==> upstreamCalls == old(upstreamCalls) && result0 != nil && result0.StatusCode == 504   # name: only-if-cached-504   props: C18
